@@ -5,6 +5,7 @@ import (
 	"fmt"
 	"go/types"
 	"math/bits"
+	"os"
 	"reflect"
 	"strconv"
 	"strings"
@@ -200,6 +201,9 @@ func (e *Engine) appendSlice(in ssa.Instruction, a *SliceV, b Value, t types.Typ
 
 type stubFn func(e *Engine, fn *ssa.Function, args []Value) Value
 
+// StubFn is the exported name of the stub signature (for Config.ExtraStubs).
+type StubFn = stubFn
+
 var stubCache = map[string]stubFn{}
 
 func fnKey(fn *ssa.Function) string {
@@ -212,7 +216,13 @@ func fnKey(fn *ssa.Function) string {
 func (e *Engine) intercept(fn *ssa.Function, args []Value) (Value, bool) {
 	st, ok := e.stubOf[fn]
 	if !ok {
-		st = stubs[fnKey(fn)]
+		if debugKeys {
+			println("fnkey:", fnKey(fn))
+		}
+		st = e.cfg.ExtraStubs[fnKey(fn)]
+		if st == nil {
+			st = stubs[fnKey(fn)]
+		}
 		if st == nil && fn.Pkg != nil && fn.Name() == "init" && !e.interpretPkg(fn.Pkg.Pkg.Path()) {
 			st = func(*Engine, *ssa.Function, []Value) Value { return nil }
 		}
@@ -351,6 +361,8 @@ func ite(e *Engine, c, a, b Value, w uint8) Value {
 	panic("ite")
 }
 
+var debugKeys = os.Getenv("VERIF_DEBUGKEYS") != ""
+
 var stubs map[string]stubFn
 
 func init() {
@@ -385,9 +397,18 @@ func init() {
 			e.reached = append(e.reached, a[0].(string))
 			return nil
 		},
-		rtPkg + "ObserveInt":  func(e *Engine, _ *ssa.Function, a []Value) Value { e.obs = append(e.obs, obsRec{a[0].(string), a[1]}); return nil },
-		rtPkg + "ObserveBool": func(e *Engine, _ *ssa.Function, a []Value) Value { e.obs = append(e.obs, obsRec{a[0].(string), a[1]}); return nil },
-		rtPkg + "ObserveStr":  func(e *Engine, _ *ssa.Function, a []Value) Value { e.obs = append(e.obs, obsRec{a[0].(string), a[1]}); return nil },
+		rtPkg + "ObserveInt": func(e *Engine, _ *ssa.Function, a []Value) Value {
+			e.obs = append(e.obs, obsRec{a[0].(string), a[1]})
+			return nil
+		},
+		rtPkg + "ObserveBool": func(e *Engine, _ *ssa.Function, a []Value) Value {
+			e.obs = append(e.obs, obsRec{a[0].(string), a[1]})
+			return nil
+		},
+		rtPkg + "ObserveStr": func(e *Engine, _ *ssa.Function, a []Value) Value {
+			e.obs = append(e.obs, obsRec{a[0].(string), a[1]})
+			return nil
+		},
 		rtPkg + "And": func(e *Engine, _ *ssa.Function, a []Value) Value {
 			r := e.st.True
 			for _, v := range sliceVals(e, a[0]) {
@@ -422,7 +443,7 @@ func init() {
 			}
 			panic("popcount")
 		},
-		rtPkg + "Actor": func(e *Engine, _ *ssa.Function, a []Value) Value { e.actor = int(a[0].(int64)); return nil },
+		rtPkg + "Actor":    func(e *Engine, _ *ssa.Function, a []Value) Value { e.actor = int(a[0].(int64)); return nil },
 		rtPkg + "Symbolic": func(e *Engine, _ *ssa.Function, a []Value) Value { return true },
 		rtPkg + "Concrete": func(e *Engine, _ *ssa.Function, a []Value) Value {
 			// Concrete(x int) int: fork on the feasible values of x
@@ -465,8 +486,9 @@ func init() {
 			e.call(cl.Fn, nil, cl.Env)
 			return Tuple{int64(0), false}
 		},
-		rtPkg + "Stderr": func(e *Engine, _ *ssa.Function, a []Value) Value { return joinStr(e.stderr) },
-		rtPkg + "Stdout": func(e *Engine, _ *ssa.Function, a []Value) Value { return joinStr(e.stdout) },
+		rtPkg + "LastPanic": func(e *Engine, _ *ssa.Function, a []Value) Value { return e.lastPanic },
+		rtPkg + "Stderr":    func(e *Engine, _ *ssa.Function, a []Value) Value { return joinStr(e.stderr) },
+		rtPkg + "Stdout":    func(e *Engine, _ *ssa.Function, a []Value) Value { return joinStr(e.stdout) },
 		rtPkg + "FootprintsDisjoint": func(e *Engine, _ *ssa.Function, a []Value) Value {
 			return e.footprintsDisjoint(int(a[0].(int64)), int(a[1].(int64)))
 		},
@@ -490,11 +512,13 @@ func init() {
 
 		// ---- library stubs ----
 		"strconv.Quote": func(e *Engine, _ *ssa.Function, a []Value) Value { return quoteOf(a[0], strconv.Quote) },
-		"strconv.Itoa":  func(e *Engine, _ *ssa.Function, a []Value) Value { return strconv.FormatInt(e.concreteInt(a[0], "Itoa"), 10) },
+		"strconv.Itoa": func(e *Engine, _ *ssa.Function, a []Value) Value {
+			return strconv.FormatInt(e.concreteInt(a[0], "Itoa"), 10)
+		},
 		"strconv.ParseInt": stubParseInt,
-		"fmt.Sprintf":   func(e *Engine, _ *ssa.Function, a []Value) Value { return e.sprintf(a[0], sliceVals(e, a[1])) },
-		"fmt.Sprint":    func(e *Engine, _ *ssa.Function, a []Value) Value { return e.sprint(sliceVals(e, a[0]), false) },
-		"fmt.Sprintln":  func(e *Engine, _ *ssa.Function, a []Value) Value { return e.sprint(sliceVals(e, a[0]), true) },
+		"fmt.Sprintf":      func(e *Engine, _ *ssa.Function, a []Value) Value { return e.sprintf(a[0], sliceVals(e, a[1])) },
+		"fmt.Sprint":       func(e *Engine, _ *ssa.Function, a []Value) Value { return e.sprint(sliceVals(e, a[0]), false) },
+		"fmt.Sprintln":     func(e *Engine, _ *ssa.Function, a []Value) Value { return e.sprint(sliceVals(e, a[0]), true) },
 		"fmt.Errorf": func(e *Engine, _ *ssa.Function, a []Value) Value {
 			args := sliceVals(e, a[1])
 			n := &Native{Kind: "error", Msg: e.sprintf(strings.ReplaceAll(a[0].(string), "%w", "%v"), args)}
@@ -507,14 +531,40 @@ func init() {
 			}
 			return &Iface{T: errType, V: n}
 		},
+		"errors.Join": func(e *Engine, _ *ssa.Function, a []Value) Value {
+			var msgs []Value
+			n := &Native{Kind: "error"}
+			for _, x := range sliceVals(e, a[0]) {
+				if ifc, _ := x.(*Iface); ifc != nil {
+					n.Wrap = append(n.Wrap, ifc)
+					msgs = append(msgs, e.invoke(ifc, errorMethod, nil))
+				}
+			}
+			if len(n.Wrap) == 0 {
+				return (*Iface)(nil)
+			}
+			var segs []Seg
+			for i, m := range msgs {
+				if i > 0 {
+					segs = append(segs, Seg{S: "\n"})
+				}
+				segs = append(segs, segsOf(m)...)
+			}
+			n.Msg = mkString(segs)
+			return &Iface{T: errType, V: n}
+		},
 		"errors.New": func(e *Engine, _ *ssa.Function, a []Value) Value {
 			return &Iface{T: errType, V: &Native{Kind: "error", Msg: a[0]}}
 		},
 		"fmt.Fprintf": func(e *Engine, _ *ssa.Function, a []Value) Value {
 			return e.writeTo(a[0], e.sprintf(a[1], sliceVals(e, a[2])))
 		},
-		"fmt.Fprint":   func(e *Engine, _ *ssa.Function, a []Value) Value { return e.writeTo(a[0], e.sprint(sliceVals(e, a[1]), false)) },
-		"fmt.Fprintln": func(e *Engine, _ *ssa.Function, a []Value) Value { return e.writeTo(a[0], e.sprint(sliceVals(e, a[1]), true)) },
+		"fmt.Fprint": func(e *Engine, _ *ssa.Function, a []Value) Value {
+			return e.writeTo(a[0], e.sprint(sliceVals(e, a[1]), false))
+		},
+		"fmt.Fprintln": func(e *Engine, _ *ssa.Function, a []Value) Value {
+			return e.writeTo(a[0], e.sprint(sliceVals(e, a[1]), true))
+		},
 		"fmt.Printf": func(e *Engine, _ *ssa.Function, a []Value) Value {
 			e.stdout = append(e.stdout, e.sprintf(a[0], sliceVals(e, a[1])))
 			return Tuple{int64(0), (*Iface)(nil)}
@@ -598,6 +648,28 @@ func init() {
 			}
 			return nil
 		},
+		"(*sync.Pool).Put": func(e *Engine, _ *ssa.Function, a []Value) Value {
+			c := a[0].(*Cell)
+			e.touch(c, true)
+			e.pools[c] = append(e.pools[c], a[1])
+			return nil
+		},
+		"(*sync.Pool).Get": func(e *Engine, fn *ssa.Function, a []Value) Value {
+			// adversarial but allowed behaviour: hand out the most recently Put item
+			c := a[0].(*Cell)
+			e.touch(c, true)
+			if items := e.pools[c]; len(items) > 0 {
+				v := items[len(items)-1]
+				e.pools[c] = items[:len(items)-1]
+				return v
+			}
+			if nf, ok := e.fieldByName(c, fn.Signature.Recv().Type(), "New"); ok {
+				if cl, _ := nf.(*Closure); cl != nil {
+					return e.call(cl.Fn, nil, cl.Env)
+				}
+			}
+			return (*Iface)(nil)
+		},
 		"strings.ToLower": func(e *Engine, _ *ssa.Function, a []Value) Value { return e.caseMap(a[0], false) },
 		"strings.ToUpper": func(e *Engine, _ *ssa.Function, a []Value) Value { return e.caseMap(a[0], true) },
 	}
@@ -634,6 +706,7 @@ func (e *Engine) bufAppend(c *Cell, s Value) {
 }
 
 var errType = types.Universe.Lookup("error").Type()
+var errorMethod = errType.Underlying().(*types.Interface).Method(0)
 
 // writeTo implements fmt.Fprint* : route to the writer.
 func (e *Engine) writeTo(w Value, s Value) Value {
@@ -644,11 +717,10 @@ func (e *Engine) writeTo(w Value, s Value) Value {
 	n := e.writeLen(s)
 	switch ifc.T.String() {
 	case "*os.File":
-		c, _ := ifc.V.(*Cell)
-		switch {
-		case c != nil && c == e.natives["os.Stderr"]:
+		switch fileName(ifc) {
+		case "<stderr>":
 			e.stderr = append(e.stderr, s)
-		case c != nil && c == e.natives["os.Stdout"]:
+		case "<stdout>":
 			e.stdout = append(e.stdout, s)
 		default:
 			e.fileWrites = append(e.fileWrites, s)
@@ -940,34 +1012,34 @@ func stubParseInt(e *Engine, _ *ssa.Function, a []Value) Value {
 // ---- native calls by reflection (pure library functions on fully concrete arguments) ----
 
 var nativeFuncs = map[string]any{
-	"strings.Join":       strings.Join,
-	"strings.Cut":        strings.Cut,
-	"strings.HasPrefix":  strings.HasPrefix,
-	"strings.HasSuffix":  strings.HasSuffix,
-	"strings.Contains":   strings.Contains,
-	"strings.Index":      strings.Index,
-	"strings.IndexByte":  strings.IndexByte,
-	"strings.LastIndexByte": strings.LastIndexByte,
-	"strings.Repeat":     strings.Repeat,
-	"strings.TrimSpace":  strings.TrimSpace,
-	"strings.TrimPrefix": strings.TrimPrefix,
-	"strings.TrimSuffix": strings.TrimSuffix,
-	"strings.Split":      strings.Split,
-	"strings.Fields":     strings.Fields,
-	"strings.ReplaceAll": strings.ReplaceAll,
-	"strings.Replace":    strings.Replace,
-	"strings.Count":      strings.Count,
-	"strings.EqualFold":  strings.EqualFold,
-	"strconv.Atoi":       strconv.Atoi,
-	"strconv.FormatInt":  strconv.FormatInt,
-	"strconv.ParseUint":  strconv.ParseUint,
-	"unicode.ToUpper":    unicode.ToUpper,
-	"unicode.ToLower":    unicode.ToLower,
-	"unicode.IsUpper":    unicode.IsUpper,
-	"unicode.IsLower":    unicode.IsLower,
-	"unicode.IsLetter":   unicode.IsLetter,
-	"unicode.IsDigit":    unicode.IsDigit,
-	"unicode.IsSpace":    unicode.IsSpace,
+	"strings.Join":                   strings.Join,
+	"strings.Cut":                    strings.Cut,
+	"strings.HasPrefix":              strings.HasPrefix,
+	"strings.HasSuffix":              strings.HasSuffix,
+	"strings.Contains":               strings.Contains,
+	"strings.Index":                  strings.Index,
+	"strings.IndexByte":              strings.IndexByte,
+	"strings.LastIndexByte":          strings.LastIndexByte,
+	"strings.Repeat":                 strings.Repeat,
+	"strings.TrimSpace":              strings.TrimSpace,
+	"strings.TrimPrefix":             strings.TrimPrefix,
+	"strings.TrimSuffix":             strings.TrimSuffix,
+	"strings.Split":                  strings.Split,
+	"strings.Fields":                 strings.Fields,
+	"strings.ReplaceAll":             strings.ReplaceAll,
+	"strings.Replace":                strings.Replace,
+	"strings.Count":                  strings.Count,
+	"strings.EqualFold":              strings.EqualFold,
+	"strconv.Atoi":                   strconv.Atoi,
+	"strconv.FormatInt":              strconv.FormatInt,
+	"strconv.ParseUint":              strconv.ParseUint,
+	"unicode.ToUpper":                unicode.ToUpper,
+	"unicode.ToLower":                unicode.ToLower,
+	"unicode.IsUpper":                unicode.IsUpper,
+	"unicode.IsLower":                unicode.IsLower,
+	"unicode.IsLetter":               unicode.IsLetter,
+	"unicode.IsDigit":                unicode.IsDigit,
+	"unicode.IsSpace":                unicode.IsSpace,
 	"unicode/utf8.RuneCountInString": utf8.RuneCountInString,
 	"unicode/utf8.RuneLen":           utf8.RuneLen,
 	"unicode/utf8.ValidString":       utf8.ValidString,
